@@ -695,6 +695,14 @@ fn op_applied_to_last_axis<Op: OperatorAxis + 'static>(graph: &Graph, node_id: N
     input_last_axis == Some(axis)
 }
 
+/// Return the ID of the first output of an operator node.
+fn operator_output(graph: &Graph, op_node_id: NodeId) -> Option<NodeId> {
+    graph
+        .get_node(op_node_id)
+        .and_then(|n| n.as_operator())
+        .and_then(|op| op.output_ids().first().copied().flatten())
+}
+
 /// Test if a constant or value node is known to have at most one dimension.
 fn is_scalar_or_vector(graph: &Graph, node_id: NodeId) -> bool {
     graph.get_rank(node_id).is_some_and(|ndim| ndim <= 1)
@@ -761,9 +769,12 @@ impl PatternFusion for LayerNormalizationFusion {
             return Err(FusionError::CheckFailed("not applied to last axis"));
         }
 
+        // `epsilon` is added to the output of the variance `ReduceMean`.
         let epsilon_input = pat_match.node_id("epsilon").unwrap();
+        let variance = operator_output(graph, norm_mean)
+            .ok_or(FusionError::CheckFailed("missing variance output"))?;
         let epsilon = graph
-            .get_scalar(epsilon_input)
+            .get_scalar_operand(epsilon_input, variance)
             .ok_or(FusionError::CheckFailed("epsilon not a scalar"))?;
 
         // The fused operator only accepts scale and bias values which can be
@@ -825,11 +836,14 @@ impl PatternFusion for RMSNormalizationFusion {
     }
 
     fn maybe_fuse(&self, rms_match: &Match, graph: &Graph) -> Result<Self::Operator, FusionError> {
+        // `epsilon` is added to the output of the `ReduceMean`.
         let epsilon_input = rms_match.node_id("epsilon").unwrap();
-        let epsilon = graph
-            .get_scalar(epsilon_input)
-            .ok_or(FusionError::CheckFailed("epsilon not a scalar"))?;
         let norm_mean = rms_match.node_id("norm_mean").unwrap();
+        let mean_square = operator_output(graph, norm_mean)
+            .ok_or(FusionError::CheckFailed("missing mean output"))?;
+        let epsilon = graph
+            .get_scalar_operand(epsilon_input, mean_square)
+            .ok_or(FusionError::CheckFailed("epsilon not a scalar"))?;
 
         if !op_applied_to_last_axis::<ReduceMean>(graph, norm_mean) {
             return Err(FusionError::CheckFailed("not applied to last axis"));
